@@ -98,6 +98,7 @@ c.modifies('$alive', '$qmax')
 c.ensures('fresh-queue', lambda c: And(Not(c.pre.alive(c.result)), c.cur.alive(c.result), isa['Queue'](c.result),
                                        c.result != NONE,
                                        c.cur.f('$qmax', c.result) == z3.ToInt(L.numval(c.a.maxsize))))
+c.ensures('allocates-only-the-queue', lambda c: allocates_only(c.pre, c.cur, 'Queue'))
 c.ensures('other-queues-unchanged', lambda c: unchanged_field(c.pre, c.cur, '$qmax', lambda o: o == c.result))
 
 c = contract('Window.__init__', F).param('self').param('jobs_window').returns('none')
@@ -109,6 +110,7 @@ c.ensures('queue-maxsize-is-the-window-size-or-0', lambda c: And(
     Not(c.pre.alive(c.cur.f('queue', c.a.self))),
     c.cur.f('$qmax', c.cur.f('queue', c.a.self)) ==
     If(c.a.jobs_window == NONE, 0, z3.ToInt(L.numval(c.a.jobs_window)))), props=['C07'])
+c.ensures('allocates-only-the-queue', lambda c: allocates_only(c.pre, c.cur, 'Queue'))
 c.ensures('frame[queue]', lambda c: unchanged_field(c.pre, c.cur, 'queue', lambda o: o == c.a.self))
 c.ensures('frame[qmax]', lambda c: unchanged_field(
     c.pre, c.cur, '$qmax', lambda o: o == c.cur.f('queue', c.a.self)))
